@@ -279,6 +279,10 @@ def check(case) -> core.Out:
         return out
     for kind, base, detail in C.compare_attrs(actual, expected):
         out.viol.append((key + f"{kind}:{base}", detail))
+    try:
+        msg_for_copy = pyubx2.UBXReader.parse(frame, msgmode=mode, parsebitfield=bf)
+    except Exception:  # noqa
+        msg_for_copy = msg
     if not out.viol and C.scribble(msg):
         # the parsed values were edited in place by their owner: a second parse of
         # the same frame must still report the prescribed values
@@ -293,6 +297,21 @@ def check(case) -> core.Out:
                 out.viol.append((key + "shared-value:aliased", "two attributes of one message are the same list object"))
         except Exception as err:  # noqa
             out.viol.append((key + f"shared-value:raises:{type(err).__name__}", repr(err)[:200]))
+    if not out.viol and (len(payload) + bf) % 2 == 0:
+        # a copy of the parsed message (copy / pickle: across processes, queues, caches)
+        # exposes the same attributes - in the same bitfield view
+        import copy
+        import pickle
+
+        for how, mk in (("copy", copy.copy), ("deepcopy", copy.deepcopy), ("pickle", lambda m_: pickle.loads(pickle.dumps(m_)))):
+            try:
+                dup = mk(msg_for_copy)
+            except Exception:  # noqa - whether messages can be copied at all is not C02's business
+                continue
+            out.classes = list(out.classes) + ["copied"]
+            for kind, base, detail in C.compare_attrs(C.public_attrs(dup), expected):
+                out.viol.append((key + f"{how}:{kind}:{base}", f"{how} of the parsed message: {detail}"))
+                break
     if not out.viol and payload and len(payload) % 3 == 0:
         # the documented constructor route for a raw payload: other keywords are
         # ignored when payload= is given - also ones that name attributes or flags
